@@ -178,21 +178,7 @@ def _nan_nodes(pts):
     return [p[0] != p[0] or p[1] != p[1] for p in pts]
 
 
-def stale_scene(scene):
-    """The same project as it looked before the user edited it: keypoints elsewhere, other nodes missing (same number of
-    samples, so every stale file has a namesake that must be overwritten)."""
-    sc = copy.deepcopy(scene)
-    for f in sc["frames"]:
-        H, W = sc["sizes"][f["video"]]
-        for i in f["instances"]:
-            i.pop("hidden", None)
-            vis = [j for j, p in enumerate(i["pts"]) if p[0] == p[0]]
-            if not vis:
-                continue  # an empty instance stays empty: the number of samples must not change
-            i["pts"] = [[min(max(p[0] + 4.0, 1.0), W - 2.0), min(max(p[1] - 3.0, 1.0), H - 2.0)] if p[0] == p[0] else [min(7.0 + j, W - 2.0), 9.0] for j, p in enumerate(i["pts"])]
-            if len(vis) > 1:
-                i["pts"][vis[0]] = [float("nan"), float("nan")]
-    return sc
+stale_scene = dw.stale_scene
 
 
 class DS:
